@@ -344,6 +344,10 @@ RULES = {
 
 
 def run_family(ck, prop, n, extra=None):
+    # design level first: implementation-shaped model (spec/Quill.tla), exhaustive + exported schedules replayed
+    import sysmodel
+    if prop in sysmodel.CONFIGS:
+        sysmodel.run_for(ck, prop)
     rng = random.Random(ck.seed)
     fam, qks = FAMILIES[prop]
     scen = []
